@@ -6,9 +6,11 @@
 
   Model: `Mcp.Model.Calls` (a family indexed by facts regenerated into `Mcp.Gen.CallFacts`).
   Theorems: `C08_no_wrong_result`, `C08_no_partial_frame`, `C08_returns`, `C08_pending_empty`,
-  `C08_ledger_zero_after_close` for the good region; `…_partial` + `…_witness` where today's facts are outside it
-  (stdio: two closers of a pending channel, unchecked receive, two `Cmd.Wait` sites; Streamable: `handleSSEResponse`
-  never closes the body, the listening stream's asynchronous start ignores Close).
+  `C08_ledger_zero_after_close` for the good region, which today's facts of all four transports are in (instance
+  theorems `C08_facts_*`, decided on the regenerated tables); `…_partial` theorems for any facts and `…_witness`
+  schedules over explicit bad facts for every region the tree has been in (stdio: two closers of a pending channel,
+  unchecked receive, two `Cmd.Wait` sites; Streamable: `handleSSEResponse` not closing the body, the listening
+  stream's asynchronous start ignoring Close — all repaired in /repo).
 -/
 import Mcp.Model.Calls
 import Mcp.Gen.CallFacts
@@ -212,7 +214,7 @@ theorem C08_no_wrong_result (f : Facts) (cfg : Cfg) (h1 : f.oneCloser = true) (h
   · rcases b.2 with x | x <;> simp_all
 
 /-- Whatever the facts: a call whose pending channel close() has not closed returns an error or its own answer. (This is
-    what is left of `C08_no_wrong_result` for the stdio transport of today, whose pending channels have two closers.) -/
+    what is left of `C08_no_wrong_result` for a transport whose pending channels have two closers, as stdio had.) -/
 theorem C08_no_wrong_result_partial (f : Facts) (cfg : Cfg)
     (evs : List Ev) (s : St) (hr : run f cfg (init cfg) evs = some s) (c : Nat) (r : Res)
     (hret : (s.calls c).returned = some r) (hc : (s.calls c).chClosed = false) :
@@ -359,7 +361,7 @@ theorem C08_returns (f : Facts) (cfg : Cfg) (hg : f.goodFor cfg.t = true)
       ((s'.calls c).returned = some .err ∨ ((s.calls c).slot = true ∧ (s'.calls c).returned = some .ok)) :=
   returns_core f cfg (selOk_of_good f cfg.t hg).1 evs s hr c hw k ha hh (Or.inl (selOk_of_good f cfg.t hg).2)
 
-/-- What is left of `C08_returns` where a pending channel has two closers (stdio today): the same conclusion for a call
+/-- What is left of `C08_returns` where a pending channel has two closers (stdio before its repair): the same conclusion for a call
     whose channel close() has not closed yet. -/
 theorem C08_returns_partial (f : Facts) (cfg : Cfg) (ht : cfg.t = .stdio)
     (hg : ({ f with oneCloser := true, recvOk := true, oneWait := true }).goodFor .stdio = true)
@@ -495,21 +497,20 @@ open Mcp.Gen.CallFacts in
 theorem C08_facts_sse : (factsOf clTables .sse).goodFor .sse = true := by decide
 
 open Mcp.Gen.CallFacts in
-/-- Streamable client, JSON answers, today: good except for the unguarded start of the listening stream. -/
-theorem C08_facts_streamJson_partial :
-    ({ factsOf clTables .streamJson with startGuarded := true }).goodFor .streamJson = true := by decide
+/-- Streamable client, JSON answers, today: in the good region (request built with the caller's context, body closed by
+    `send`'s deferred Close, the listening stream's start refused after `close()`). -/
+theorem C08_facts_streamJson : (factsOf clTables .streamJson).goodFor .streamJson = true := by decide
 
 open Mcp.Gen.CallFacts in
-/-- Streamable client, SSE answers, today: good except for the body `handleSSEResponse` never closes and the unguarded
-    stream start. -/
-theorem C08_facts_streamSse_partial :
-    ({ factsOf clTables .streamSse with bodyClosed := true, startGuarded := true }).goodFor .streamSse = true := by decide
+/-- Streamable client, SSE answers, today: in the good region (`handleSSEResponse` closes the body it is handed, its wait
+    has the caller-context case, guarded stream start). -/
+theorem C08_facts_streamSse : (factsOf clTables .streamSse).goodFor .streamSse = true := by decide
 
 open Mcp.Gen.CallFacts in
-/-- stdio client of today: good except for the two closers of a pending channel, the unchecked receive and the two
-    `Cmd.Wait` call sites. -/
-theorem C08_facts_stdio_partial :
-    ({ factsOf clTables .stdio with oneCloser := true, recvOk := true, oneWait := true }).goodFor .stdio = true := by decide
+/-- stdio client of today: in the good region (wait with answer / caller context / timer / transport context and a
+    checked receive, deferred delete, `close()` the only closer of a pending channel, `processWatcher` the only caller of
+    `Cmd.Wait` and it cancels the transport context). -/
+theorem C08_facts_stdio : (factsOf clTables .stdio).goodFor .stdio = true := by decide
 
 open Mcp.Gen.CallFacts in
 /-- (a) Every function that inserts into a pending table defers the delete. -/
@@ -517,9 +518,8 @@ theorem C08_inserts_deferred : clInserts.isEmpty = false ∧ clInserts.all (·.d
 
 open Mcp.Gen.CallFacts in
 /-- (b) Every function that obtains an `*http.Response` closes its body on every path or hands it to a function that
-    does — except `send`, whose SSE path hands it to `handleSSEResponse` (the table minus that one site). -/
-theorem C08_bodies_partial :
-    ((clBodies.filter (·.obtains)).all (fun b => siteOk clTables b || (b.fn = t!"send" && siteOkOwnPath b))) = true := by decide
+    does (`send` → `handleSSEResponse`, `start` → `readSSE`). -/
+theorem C08_bodies_closed : ((clBodies.filter (·.obtains)).all (siteOk clTables)) = true := by decide
 
 open Mcp.Gen.CallFacts in
 /-- (c) The waits of today's call paths have the cases the property needs: `sendRequest` (stdio) answer / caller context /
